@@ -68,6 +68,7 @@ type gated struct {
 	entered       int // calls of the inner Start
 	late          bool
 	closeReturned atomic.Bool
+	hc            *gate // closed: Close stops the service at once but does not return before the gate opens
 }
 
 func (w *gated) Start(ctx context.Context) error {
@@ -91,7 +92,11 @@ func (w *gated) Start(ctx context.Context) error {
 	}()
 	return w.in.Start(ctx)
 }
-func (w *gated) Close() error { return w.in.Close() }
+func (w *gated) Close() error {
+	err := w.in.Close()
+	w.hc.wait() // a slow Close: e.g. the restart cool-down can end while recoverer.Close is still in here
+	return err
+}
 
 // ---- once: the real time ticker; a panic is raised by its getter function (called inline by Start)
 type nopObserver struct{}
